@@ -151,6 +151,7 @@ func main() {
 		var e proto.Expected
 		readJSON(*corpusPath, &c)
 		readJSON(*expPath, &e)
+		slim(&c, &e)
 		runSim(&c, &e, *seed, *proc, *runs, *build, *maxStep, *free, *wantSigs, *budgetMs, *clock)
 	case "replay":
 		var rec proto.Record
@@ -196,12 +197,21 @@ func runOracle(c *proto.Corpus, order, ids string, seed uint64, free bool, budge
 		r := &rnd{mix(seed, 0x50a6)}
 		base := append([]int{}, sel...)
 		sel = sel[:0]
-		for len(sel) < soakCalls {
+		for cycle := 0; len(sel) < soakCalls; cycle++ {
 			for i := len(base) - 1; i > 0; i-- {
 				j := r.n(i + 1)
 				base[i], base[j] = base[j], base[i]
 			}
-			sel = append(sel, base...)
+			if cycle%8 == 0 {
+				sel = append(sel, base...)
+				continue
+			}
+			// the flood calls (tens of ms each) take part in every eighth cycle only
+			for _, id := range base {
+				if c.Calls[id].Tag != "flood" {
+					sel = append(sel, id)
+				}
+			}
 		}
 		sel = sel[:soakCalls]
 	default:
@@ -287,6 +297,18 @@ func runOracle(c *proto.Corpus, order, ids string, seed uint64, free bool, budge
 	writeJSON(outPath, out)
 }
 
+// slim drops the argument lists of the big flood calls, which simulated runs never use
+// (newWgen skips them): 10^5 strings less for every collection to walk.
+func slim(c *proto.Corpus, e *proto.Expected) {
+	for i := range c.Calls {
+		if c.Calls[i].Tag == "flood" && i < len(e.Steps) && e.Steps[i] > floodSimSteps {
+			c.Calls[i].List = nil
+			c.Calls[i].Expr = ""
+		}
+	}
+	runtime.GC()
+}
+
 func fold(h, x uint64) uint64 { return (h ^ x) * 0x100000001b3 }
 
 func runSim(c *proto.Corpus, e *proto.Expected, seed uint64, proc, runs int, build string, maxStep int64, free, wantSigs bool, budgetMs int64, clock bool) {
@@ -333,10 +355,19 @@ func runSim(c *proto.Corpus, e *proto.Expected, seed uint64, proc, runs int, bui
 		if wantSigs {
 			res.RunSigs = append(res.RunSigs, o.sim.Signature)
 		}
+		floodRun := false
 		for _, t := range rec.Tasks {
 			for _, op := range t.Ops {
 				used[op.Call] = true
+				if c.Calls[op.Call].Tag == "flood" {
+					floodRun = true
+				}
 			}
+		}
+		if floodRun {
+			res.Faults["flood_task"]++
+		} else {
+			res.Faults["flood_task"] += 0
 		}
 		// fault kinds, counted only when they actually fired
 		res.Faults["preempt"] += int(o.sim.Switches)
